@@ -43,7 +43,7 @@ def check_expr(run: core.Run, prop: str, e: E, envs, truth, stats) -> None:
     if out == "timeout":
         stats["timeouts"] += 1
         return
-    run.add(core.Case(f"{prop}.expr", "m.expr\t" + e.tokens(), out, " " in out))
+    run.add(core.Case(f"{prop}.expr", "m.expr\t" + e.tokens(), out, " " in out, ctx=e))
     rep = {"op": "expr", "expr": e.to_json()}
     key = "expr|" + e.show()
     if m is None:
@@ -126,8 +126,81 @@ def check_roundtrip(run, e: E, m, envs, stats) -> None:
             break
 
 
+def single_layer_pools(tier):
+    """pools of single markers (atoms and grouped atoms) on ONE variable each: the table of
+    `&`/`|` between single markers is enumerated completely over each pool"""
+    pools = []
+    str_specs = [("sys_platform", ["linux", "darwin", "win32", "lin"], ["linux darwin", "win32 cygwin", "linux"])]
+    if tier == "thorough":
+        str_specs += [("os_name", ["posix", "nt", "pos", ""], ["posix nt", "nt java", "posix"]),
+                      ("platform_machine", ["x86_64", "arm64", "x86"], ["x86_64 amd64", "arm64 aarch64"])]
+    for var, vals, lits in str_specs:
+        pool = []
+        for v in vals:
+            pool += [f'{var} == "{v}"', f'{var} != "{v}"', f'"{v}" in {var}', f'"{v}" not in {var}']
+        pool += [f'"{vals[0]}" == {var}', f'"{vals[1]}" != {var}']
+        for lit in lits:
+            pool += [f'{var} in "{lit}"', f'{var} not in "{lit}"']
+        for a, b in itertools.combinations(vals, 2):
+            pool += [f'{var} == "{a}" or {var} == "{b}"', f'{var} != "{a}" and {var} != "{b}"']
+        pool += [f'{var} == "{vals[0]}" or {var} == "{vals[1]}" or {var} == "{vals[2]}"',
+                 f'{var} != "{vals[0]}" and {var} != "{vals[1]}" and {var} != "{vals[2]}"']
+        envs = [{var: x} for x in vals + ["zzz", vals[0] + " " + vals[1], ""]]
+        pools.append((var, pool, envs))
+    # the two Python-version variables together (the python_version <-> python_full_version merge)
+    pv = ["3.8", "3.9", "3.10"] + (["3", "3.7", "2.7"] if tier == "thorough" else [])
+    pfv = ["3.8", "3.8.5", "3.9.0", "3.10.1"] + (["3.7.9", "3.9", "3.10"] if tier == "thorough" else [])
+    ops = ["==", "!=", "<", "<=", ">", ">="]
+    pool = [f'python_version {o} "{v}"' for o in ops for v in pv] + [f'python_full_version {o} "{v}"' for o in ops for v in pfv]
+    pool += ['python_version ~= "3.8"', 'python_full_version ~= "3.8.2"', 'python_version == "3.*"', 'python_full_version != "3.9.*"',
+             '"3.9" <= python_version', '"3.9.1" > python_full_version', 'python_version not in "3.8, 3.9"', 'python_version in "3.9, 3.10"']
+    envs = []
+    for full in ["2.7.18", "3.7.9", "3.8.0", "3.8.4", "3.8.5", "3.8.6", "3.9.0", "3.9.1", "3.9.9", "3.10.0", "3.10.1", "3.10.2", "3.11.0", "4.0.0"]:
+        X, Y = full.split(".")[:2]
+        envs.append({"python_full_version": full, "python_version": f"{X}.{Y}"})
+    pools.append(("python_version", pool, envs))
+    return pools
+
+
+def run_single_layer(run: core.Run, stats) -> None:
+    base = {"os_name": "posix", "sys_platform": "linux", "platform_machine": "x86_64", "platform_system": "Linux",
+            "platform_release": "5.10", "implementation_name": "cpython", "platform_python_implementation": "CPython",
+            "python_version": "3.9", "python_full_version": "3.9.1", "extra": set(), "implementation_version": "3.9.1",
+            "platform_version": "#1"}
+    for var, pool, envs in single_layer_pools(run.tier):
+        envs = [dict(base, **e) for e in envs]
+        parsed = {}
+        for t in pool:
+            parsed[t] = mk.parse_marker(t)
+        truth = {t: {id(env): ev(parsed[t], env) for env in envs} for t in pool}
+        for a, b in itertools.product(pool, pool):
+            for kind, comb in (("and", lambda x, y: x and y), ("or", lambda x, y: x or y)):
+                def tr(env, comb=comb, a=a, b=b):
+                    x, y = truth[a][id(env)], truth[b][id(env)]
+                    if not isinstance(x, bool) or not isinstance(y, bool):
+                        return None
+                    return comb(x, y)
+                check_expr(run, "C02", E(kind, E("leaf", a), E("leaf", b)), envs, tr, stats)
+
+
 def run_c02(run: core.Run, n: int) -> None:
     stats = {"timeouts": 0, "oracle": 0, "evals": 0, "eval_budget": n}
+    run_single_layer(run, stats)
+    for i in range(n // 6):
+        for e in complement_exprs(run.rng):
+            if e.kind in ("and", "or"):
+                ls = e.leaves()
+                envs = mk.envs_for(ls, run.rng, 12)
+                try:
+                    x, y = timed(e.args[0].run), timed(e.args[1].run)
+                except Exception:  # noqa: BLE001
+                    continue
+                comb = (lambda p, q: p and q) if e.kind == "and" else (lambda p, q: p or q)
+
+                def truth(env, x=x, y=y, comb=comb):
+                    p_, q_ = ev(x, env), ev(y, env)
+                    return comb(p_, q_) if isinstance(p_, bool) and isinstance(q_, bool) else None
+                check_expr(run, "C02", e, envs, truth, stats)
     for a, b in gen_pairs(run, n, 2):
         envs = mk.envs_for([a, b], run.rng, 24)
         try:
@@ -221,7 +294,7 @@ def run_c12(run: core.Run, n: int) -> None:
             if out == "timeout":
                 stats["timeouts"] += 1
                 continue
-            run.add(core.Case("C12.only", "m.expr\t" + e.tokens(), out))
+            run.add(core.Case("C12.only", "m.expr\t" + e.tokens(), out, ctx=e))
             rep = {"op": "expr", "expr": e.to_json()}
             if r is None:
                 run.fail(core.Failure("only|" + e.show(), f"{e.show()} raised ({out})", rep))
@@ -243,7 +316,7 @@ def run_c12(run: core.Run, n: int) -> None:
             if out == "timeout":
                 stats["timeouts"] += 1
                 continue
-            run.add(core.Case("C12.exclude", "m.expr\t" + e.tokens(), out))
+            run.add(core.Case("C12.exclude", "m.expr\t" + e.tokens(), out, ctx=e))
             rep = {"op": "expr", "expr": e.to_json()}
             if r is None:
                 run.fail(core.Failure("excl|" + e.show(), f"{e.show()} raised ({out})", rep))
@@ -263,6 +336,29 @@ def run_c12(run: core.Run, n: int) -> None:
     run.extra.update(time_budget_skips=stats["timeouts"], oracle_evaluations=stats["oracle"])
 
 
+COMPLEMENTS = [('python_version < "3.8"', 'python_version >= "3.8"'), ('python_version < "3.10"', 'python_full_version >= "3.8.5"'),
+               ('os_name == "nt"', 'os_name != "nt"'), ('sys_platform in "linux darwin"', 'sys_platform not in "linux darwin"'),
+               ('python_full_version <= "3.9.1"', 'python_full_version > "3.9.1"'), ('"win" in sys_platform', '"win" not in sys_platform'),
+               ('python_version != "3.9"', 'python_version == "3.9"'), ('platform_release < "5.10"', 'platform_release >= "5.4"')]
+
+
+def complement_exprs(rng):
+    """shapes that reach union_simplify / intersect_simplify with a shared part and cancelling unique parts"""
+    a, na = rng.choice(COMPLEMENTS)
+    if rng.random() < 0.5:
+        a, na = na, a
+    s_ = mk.atom(rng)
+    t_ = mk.atom(rng)
+    L = lambda x: E("leaf", x)  # noqa: E731
+    out = [L(f"({a} and {s_}) or ({na} and {s_})"), L(f"({a} and {s_} and {t_}) or ({na} and {s_})"),
+           L(f"({a} or {s_}) and ({na} or {s_})"), L(f"({a} or {s_} or {t_}) and ({na} or {s_})"),
+           E("and", L(f"({a} and {s_}) or {na}"), L(s_)), E("or", L(f"({a} or {s_}) and {na}"), L(s_)),
+           E("or", L(f"{a} and {s_}"), L(f"{na} and {s_}")), E("and", L(f"{a} or {s_}"), L(f"{na} or {s_}")),
+           E("exclude", L(f'({a} and {s_} and extra == "x") or ({na} and {s_})'), "extra"),
+           E("only", L(f'({a} and {s_} and os_name == "zz") or ({na} and {s_})'), tuple(sorted(variables(mk.parse_marker(f"{a} and {na} and {s_}")))))]
+    return out
+
+
 def run_shape(run: core.Run, prop: str, n: int) -> None:
     """C15 / C07: every result of parse, &, |, only, exclude (incl. Empty/Any operands)"""
     rng = run.rng
@@ -278,6 +374,11 @@ def run_shape(run: core.Run, prop: str, n: int) -> None:
             exprs.append(E("only", E("leaf", a), tuple(rng.sample(vs, min(len(vs), rng.randint(1, 2))))))
             exprs.append(E("exclude", E("leaf", a), rng.choice(vs + ["extra"])))
             exprs.append(E("or", E("and", E("leaf", a), E("leaf", b)), E("leaf", mk.atom(rng))))
+        if i % 2 == 0:
+            try:
+                exprs += complement_exprs(rng)
+            except Exception:  # noqa: BLE001
+                pass
         for e in exprs:
             check_expr(run, prop, e, envs, lambda env: None, stats)
         if i % 10 == 0:
@@ -303,8 +404,11 @@ def run_prop(prop: str, run: core.Run) -> None:
                        "major.minor of a final python_full_version",
                        "operations exceeding a 2 s budget (exponential cnf/dnf) are counted, not judged"]
     if prop == "C02":
-        run.rule = ("random marker pairs (depth <= 2, 2-3 children) over the well-defined atom classes; & and | compared "
-                    "structurally with the model and judged by evaluate() on a literal-derived environment grid")
+        run.rule = ("single-marker layer: every ordered pair of a pool of atoms and grouped atoms on one variable (==, !=, in, "
+                    "not in, literal-on-the-left, 2- and 3-value groups) and of python_version/python_full_version atoms, both "
+                    "operators (exhaustive over the pools); plus random marker pairs (depth <= 2, 2-3 children) over the "
+                    "well-defined atom classes; compared structurally with the model and judged by evaluate() on environments "
+                    "derived from the literals")
         run_c02(run, 700 if quick else 12000)
     elif prop == "C03":
         run.rule = "random marker texts (depth <= 3) x literal-derived environments; parse_marker(text).evaluate vs packaging"
@@ -315,6 +419,65 @@ def run_prop(prop: str, run: core.Run) -> None:
     else:
         run.rule = "every result of parse, &, |, only, exclude over random markers, plus Empty/Any operands"
         run_shape(run, prop, 260 if quick else 8000)
+
+
+def wide_envs(texts, rng):
+    return mk.envs_for(texts, rng, 160)
+
+
+def search(prop: str, run: core.Run) -> None:
+    """failing-input search around model/implementation disagreements: the property's oracle on a much larger
+    environment grid, for the disagreeing operation and for the same operation applied to its sub-expressions"""
+    by_line = {c.line: c for c in run.cases if c.ctx is not None}
+    for d in run.disagreements[:25]:
+        c = by_line.get(d["op"])
+        if c is None:
+            continue
+        e: E = c.ctx
+        try:
+            m = timed(e.run, 5)
+        except Exception:  # noqa: BLE001
+            continue
+        envs = wide_envs(e.leaves(), run.rng)
+        rep = {"op": "expr", "expr": e.to_json()}
+        key = "expr|" + e.show()
+        if not is_nf(m) and prop in ("C15", "C07"):
+            run.fail(core.Failure(key, f"{e.show()} = {m!r} is not in normal form", rep))
+            continue
+        if e.kind in ("and", "or"):
+            try:
+                x, y = timed(e.args[0].run, 5), timed(e.args[1].run, 5)
+            except Exception:  # noqa: BLE001
+                continue
+            for env in envs:
+                if mk.g2_applies(e.leaves(), env):
+                    continue
+                a, b, r = ev(x, env), ev(y, env), ev(m, env)
+                want = (a and b) if e.kind == "and" else (a or b)
+                if isinstance(a, bool) and isinstance(b, bool) and r != want:
+                    run.fail(core.Failure(key + "|" + enc_env(env), f"{e.show()} = {m!r} evaluates to {r}, operands give {want}",
+                                          dict(rep, env={k: (sorted(v) if isinstance(v, set) else v) for k, v in env.items()})))
+                    break
+        elif e.kind in ("only", "exclude"):
+            try:
+                src = timed(e.args[0].run, 5)
+            except Exception:  # noqa: BLE001
+                continue
+            vs = variables(src)
+            names = set(e.args[1]) if e.kind == "only" else None
+            for env in envs:
+                if mk.g2_applies(e.leaves(), env):
+                    continue
+                a, r = ev(src, env), ev(m, env)
+                bad = False
+                if e.kind == "only":
+                    bad = (a is True and r is not True) or (vs <= names and a != r) or not (variables(m) <= names)
+                else:
+                    bad = (e.args[1] in variables(m)) or (e.args[1] not in vs and a != r)
+                if bad:
+                    run.fail(core.Failure(key + "|" + enc_env(env), f"{e.show()} = {m!r}: the {e.kind} clause fails (marker {a}, result {r})",
+                                          dict(rep, env={k: (sorted(v) if isinstance(v, set) else v) for k, v in env.items()})))
+                    break
 
 
 def replay(data: dict) -> bool:
